@@ -506,9 +506,29 @@ func (g *vGen) runScenario(idx int, dir string) vVerdict {
 	_, diffNow := s.startSets()
 	maxRounds := 12 + 3*expireEvery + diffNow/40 + 4*nNodes
 	rounds := s.fairSuffix(maxRounds, expireEvery)
+	// stability: once all XORs are equal one more gossip round must produce nothing but gossip
+	post := 0
+	if s.allEqual() {
+		for _, cc := range s.sc.Conns {
+			before := len(s.sent)
+			s.exec(&vOp{Op: "tick", N: cc.At, Peer: cc.Peer})
+			guard := 0
+			for len(s.pending) > 0 && guard < 50 {
+				s.exec(&vOp{Op: "deliver", M: s.pending[0]})
+				guard++
+			}
+			for _, pk := range s.sent[before:] {
+				if pk.kind != "gossip" {
+					post++
+				}
+			}
+		}
+	}
 	s.exec(&vOp{Op: "observe"})
 	feats = append(feats, fmt.Sprintf("expire-every=%d", expireEvery))
-	return s.verdict("c07", first, rounds, maxRounds, startDiff, startSets, feats)
+	v := s.verdict("c07", first, rounds, maxRounds, startDiff, startSets, feats)
+	v.PostTraffic = post
+	return v
 }
 
 func vOpen(dir string) *vOut {
